@@ -377,6 +377,37 @@ def invariant_target_unsupported(chk: Check, tier: str):
                           "invariant_not_two() is a clean PASS and nothing reports the incomplete exploration", {"halmos_output": text[-2000:]})
 
 
+def invariant_function_loop(chk: Check, tier: str):
+    """The loop sits in the invariant function itself, which is evaluated once per frontier state: it is cut on the state
+    reached through set(x) (count = x) and not on the one reached through one() (count = 1), in either order."""
+    L = 2
+    get = [("PUSH", 0), "SLOAD", ("PUSH", 0), "MSTORE", ("PUSH", 32), ("PUSH", 0), "RETURN"]
+    for order in (("set(uint256)", "one()"), ("one()", "zset(uint256)")):
+        fns = {"set(uint256)": arg(0) + [("PUSH", 0), "SSTORE", "STOP"], "zset(uint256)": arg(0) + [("PUSH", 0), "SSTORE", "STOP"],
+               "one()": [("PUSH", 1), ("PUSH", 0), "SSTORE", "STOP"]}
+        target = Contract("Cnt", [Fn(sig, fns[sig]) for sig in order] + [Fn("count()", get, mutability="view")], filename="src/Cnt.sol")
+        tinit = target.creation()
+        setup = [("PUSHN", 2, len(tinit)), ("PUSHL", "tinit"), ("PUSH", 0x100), "CODECOPY", ("PUSHN", 2, len(tinit)), ("PUSH", 0x100), ("PUSH", 0), "CREATE",
+                 ("PUSH", 0), "SSTORE", "STOP"]
+        # invariant_loop(): n = target.count(); for (i = 0; i < n; i++) {}
+        inv = [("PUSHN", 32, int(selector("count()"), 16) << 224), ("PUSH", 0), "MSTORE",
+               ("PUSH", 32), ("PUSH", 0x40), ("PUSH", 4), ("PUSH", 0), ("PUSH", 0), ("PUSH", 0), "SLOAD", ("PUSH", 0xFFFFFF), "CALL", "POP",
+               ("PUSH", 0), ("LABEL", "h"), ("PUSH", 0x40), "MLOAD", "DUP2", "LT", ("PUSHL", "b"), "JUMPI", "STOP",
+               ("LABEL", "b"), ("PUSH", 1), "ADD", ("PUSHL", "h"), "JUMP"]
+        test = Contract("InvL", [Fn("setUp()", setup), Fn("invariant_loop()", inv)], data=[("MARK", "tinit"), ("RAW", tinit)])
+        out = run_contract(test, others=[target], cli=("--loop", str(L), "--invariant-depth", "1"))
+        if out.exception:
+            raise MachineryError(out.exception)
+        r = out.by_sig().get("invariant_loop()")
+        if r is None:
+            raise MachineryError(f"no invariant result: {out.stdout[-500:]}")
+        chk.count("traces_validated_against_impl")
+        chk.nontrivial(("invariant-function-loop", order))
+        if r.exitcode == 0 and not flagged(out, "invariant_loop") and not r.num_bounded_loops:
+            chk.violation(f"invariant-function-loop-unreported:{'-'.join(order)}", f"invariant_loop() with --loop {L}: on the state reached through set(x) the loop is cut for x > {L}, "
+                          "yet the test is a clean PASS without a loop-bound warning", {"targets": order, "halmos_output": (out.stdout + out.logs)[-2000:]})
+
+
 def run(chk: Check, tier: str):
     work = workdir("c10")
     try:
@@ -386,6 +417,7 @@ def run(chk: Check, tier: str):
         setup_loop(chk, tier)
         invariant_target_loop(chk, tier, work)
         invariant_target_unsupported(chk, tier)
+        invariant_function_loop(chk, tier)
     finally:
         cleanup(work)
     chk.cov["rule"] = (
